@@ -109,8 +109,12 @@ class NonDominatedPriority(MOPriority):
         self.max_num_samples = max_num_samples
 
     def priority_unsafe(self, objectives: np.array) -> np.array:
-        return np.array(
-            nondominated_sort(
-                X=objectives, dim=self.dim, max_items=self.max_num_samples
-            )
+        order = nondominated_sort(
+            X=objectives, dim=self.dim, max_items=self.max_num_samples
         )
+        # ``order`` lists sample indices from best to worst. The priority of a
+        # sample is its position in this order (samples not listed because of
+        # ``max_num_samples`` share the lowest priority)
+        priorities = np.full(objectives.shape[0], len(order), dtype=int)
+        priorities[order] = np.arange(len(order))
+        return priorities
